@@ -135,7 +135,7 @@ func (e *TaskExecutor) ExecuteTasks(
 // validatedTxSenderMethodAndArgs validates the sender, method, and arguments for a transaction.
 func (e *TaskExecutor) validatedTxSenderMethodAndArgs(
 	traceCtx telemetry.TraceContext,
-	stub *cachestub.BatchCacheStub,
+	stub shim.ChaincodeStubInterface,
 	task *proto.Task,
 ) (*proto.Address, string, []string, error) {
 	_, span := e.TracingHandler.StartNewSpan(traceCtx, "TaskExecutor.validatedTxSenderMethodAndArgs")
@@ -236,15 +236,27 @@ func (e *TaskExecutor) ExecuteTask(
 
 	txCacheStub := stub.NewTxCacheStub(task.GetId())
 
+	// A query stays read-only on this route too: authentication, nonce bookkeeping and the
+	// body run on stubs that drop every write and event (as noBatchHandler does for direct
+	// calls), so committing the transaction cache below adds nothing to the batch.
+	var (
+		authStub shim.ChaincodeStubInterface = stub
+		callStub shim.ChaincodeStubInterface = txCacheStub
+	)
+	if e.Chaincode.Router().IsQuery(e.Chaincode.Router().Method(task.GetMethod())) {
+		authStub = newQueryStub(stub)
+		callStub = newQueryStub(txCacheStub)
+	}
+
 	span.AddEvent("validating tx sender method and args")
-	senderAddress, method, args, err := e.validatedTxSenderMethodAndArgs(traceCtx, stub, task)
+	senderAddress, method, args, err := e.validatedTxSenderMethodAndArgs(traceCtx, authStub, task)
 	if err != nil {
 		err = fmt.Errorf("failed to validate transaction sender, method, and arguments for task %s: %w", task.GetId(), err)
 		return handleTaskError(span, task, err)
 	}
 
 	span.AddEvent("calling method")
-	response, err := e.Chaincode.InvokeContractMethod(traceCtx, txCacheStub, senderAddress, method, args)
+	response, err := e.Chaincode.InvokeContractMethod(traceCtx, callStub, senderAddress, method, args)
 	if err != nil {
 		return handleTaskError(span, task, err)
 	}
